@@ -111,3 +111,20 @@ Proof.
     pose proof (IH s1 (inv_step_op _ _ _ _ _ _ _ Hi E1) Hr) as H2.
     unfold final in H2. rewrite E2 in H2. cbn [fst] in H2. lia.
 Qed.
+
+(* the statement of C15 in one piece: after setup and any history inside the quantifier, run_until t (t an integer
+   tick, not before now) ends with steps = clock = t, and the step calls it made are exactly the ticks
+   steps+1 .. t, each once, each at its own time *)
+Lemma step_every_tick_final : forall cfg fuel ops t st' l, c_abm cfg = true -> ops_ok cfg fuel (init cfg) ops ->
+  s_time (final cfg fuel (init cfg) ops) <= t -> t mod SCALE = 0 ->
+  run_loop cfg fuel t (final cfg fuel (init cfg) ops) = (st', l, true) ->
+  s_steps st' * SCALE = t /\ s_time st' = t /\
+  steps_of l = tick_list (s_steps (final cfg fuel (init cfg) ops))
+                         (Z.to_nat (s_steps st' - s_steps (final cfg fuel (init cfg) ops))).
+Proof.
+  intros cfg fuel ops t st' l Habm Hok Hle Hm H.
+  destruct (steps_eq_clock_final _ _ _ _ _ _ Habm Hok Hle Hm H) as [H1 H2].
+  split; [exact H1|]. split; [exact H2|].
+  exact (proj1 (steps_once_per_tick _ _ _ _ _ _ _ Habm (inv_final cfg fuel ops)
+                  (step_inv_final cfg fuel ops Habm Hok) Hle H)).
+Qed.
